@@ -68,6 +68,8 @@ type spend struct {
 	idx   int
 	spent []rs.TxOut
 	flags rs.Flags
+
+	sigCache *txscript.SigCache // shared by the repeated verifications of this spend
 }
 
 func toWire(tx *rs.Tx) *wire.MsgTx {
@@ -152,6 +154,16 @@ type monitor struct {
 
 // runBtcd executes the real engine the way the node does (hash cache from NewTxSigHashes,
 // prevout fetcher over all inputs), once plainly and once through the debug/step API.
+// sharedSigCache returns the signature cache of the spend: the first run creates it, a repeated run of the same spend
+// (compare's second pass) finds the entries the first run left behind, as block validation does after the mempool has
+// seen a transaction. A verdict must not depend on what an earlier verification put there.
+func sharedSigCache(s *spend) *txscript.SigCache {
+	if s.sigCache == nil {
+		s.sigCache = txscript.NewSigCache(64)
+	}
+	return s.sigCache
+}
+
 func runBtcd(s *spend, useSigCache bool, mon_ *monitor) (err error, stepErr error) {
 	mtx := toWire(s.tx)
 	fetcher := txscript.NewMultiPrevOutFetcher(nil)
@@ -161,7 +173,7 @@ func runBtcd(s *spend, useSigCache bool, mon_ *monitor) (err error, stepErr erro
 	flags := toBtcdFlags(s.flags)
 	var sc *txscript.SigCache
 	if useSigCache {
-		sc = txscript.NewSigCache(16)
+		sc = sharedSigCache(s)
 	}
 	hc := txscript.NewTxSigHashes(mtx, fetcher)
 	pk := s.spent[s.idx].PkScript
@@ -225,6 +237,14 @@ func compare(k *mon.Case, s *spend, family, flagClass, mutation string) *result 
 	var m monitor
 	useCache := k.Rand.Bool()
 	err, stepErr := runBtcd(s, useCache, &m)
+	if useCache {
+		// the same spend again with the signature cache of the first run
+		err2, _ := runBtcd(s, true, nil)
+		if (err == nil) != (err2 == nil) {
+			k.Failf("sigcache:verdict-changes-on-repeat:"+pathGroup(res.tr.Path), "first verification: %v; the same spend verified again with the signature cache the first run filled: %v", err, err2)
+		}
+		k.Count("sigcache.repeat-verifications", 1)
+	}
 	res.btcdErr = err
 	refOK := res.refErr == ""
 	if res.tr.ValidNonDER {
